@@ -93,6 +93,7 @@ func (x *Exec) storeLE(st *State, s Term, v Term, nbytes int, big bool) {
 		}
 		arr = Store(arr, bvBin("bvadd", SlOff(s), BVInt(int64(i), 64)), b)
 	}
+	x.noteWrite(SlBase(s))
 	x.heapSet(st, r, Store(h, SlBase(s), arr))
 }
 
